@@ -125,12 +125,14 @@ CLAIMED = {
  "C03": dict(
    text=("Lean theorems for every string: decoding saxutils-escaped text with the predefined XML references returns the string (unescape_escape / "
          "xmlUnescape_escape, fuel-bounded single-pass decoder), escaped text contains neither '<' nor '>' so it cannot open or close markup "
-         "(escape_no_angle). Executable models of the text-serialising functions of all writers (DFXP/single/legacy _recreate_text with the open_span "
+         "(escape_no_angle); the WebVTT writer's replacement chain (regenerated from _encode_illegal_characters and pinned) is undone by a single-pass WebVTT "
+         "character-reference decoder for every string (vtt_text_roundtrip) and its output contains neither '-->' nor '<', so no text can end its cue or open a tag "
+         "(vtt_text_cannot_end_cue). Executable models of the text-serialising functions of all writers (DFXP/single/legacy _recreate_text with the open_span "
          "state, SAMI _recreate_text, WebVTT _group_cues_by_layout and escaping, whole SRT and MicroDVD documents) are compared with the implementation; "
          "every writer's complete output is parsed by an independent conformant parser (lxml strict XML, html.parser, harness WebVTT/SRT/MicroDVD grammars) "
          "and must yield exactly the caption's lines per cue, for adversarial texts with optional empty lines."),
    ref="§3 C03", technique="Lean 4 proof (escape/unescape round trip by induction) + model correspondence + independent-parser oracle on writer output",
-   note=NOTE_COMMON + "Round-trip theorems for the WebVTT escaping and the 'no empty line inside a cue' claims are not proved yet (model + correspondence + oracle only). "
+   note=NOTE_COMMON + "The 'no empty line inside a cue' claims (SRT/WebVTT/MicroDVD document level) are not proved yet (model + correspondence + oracle only). "
         "prettify(formatter=None) and the conformance of lxml / html.parser are trusted. MicroDVD texts exclude '|' as the property says."),
  "C04": dict(
    text=("Lean model of the DFXP/SAMI text-leaf rule (the pinned pattern ^(?:[\\n\\r]+\\s*)?(.+) with its backtracking, plus the wrapped-line remainder) with "
@@ -162,7 +164,7 @@ CLAIMED = {
          "with all offset metrics, SAMI end back-filling with the 4 s tail) are compared with the implementation and with an independent denotation on "
          "documents rendered by the harness's own serialisers in every spelling, plus a malformed stream for the error branches."),
    ref="§3 C01", technique="Lean 4 proof (string induction: split/span lemmas) + pinned constants/patterns + differential correspondence on generated documents",
-   note=NOTE_COMMON + "Document-level theorems (srt_doc_cues, vtt_doc_cues, sami_backfill, DFXP offsets) are not proved yet: those parts are model + correspondence + independent spec only. "
+   note=NOTE_COMMON + "SAMI end back-filling is proved for every sync list (sami_backfill: next later sync of the language, else the 4 s tail). Document-level theorems for the SRT/WebVTT block scanners (srt_doc_cues, vtt_doc_cues) and the DFXP offset metrics are not proved yet: those parts are model + correspondence + independent spec only. "
         "XML/HTML tokenisation (bs4/lxml/html.parser) is library code tied by correspondence. SRT blocks without any text line and digits outside ASCII are outside the modelled domain."),
 
  "C13": dict(
